@@ -72,7 +72,9 @@ COQ_TY = {"int": "Z", "bytes": "bytes", "bool": "bool", "boollist": "list bool",
           "optmatch2": "option (list Z * list Z)",  # what pattern.match() returns
           "optmatch0": "option unit",               # a match object of which only the truth value is used
           "list:int": "list Z",
-          "PackInfo": "PackInfo",
+          "optbytes": "option bytes",
+          "iter:int": "list Z",        # an iterator over a list of ints: what is left of it
+          "set:int": "list Z",         # a set of ints, only used for membership tests
           "buffer": "bytes",          # py7zr.io.Buffer: the bytes of its view
           "cipher": "C",              # abstract cipher state (Section variable of the generated file)
           "unit": "unit"}
@@ -80,7 +82,14 @@ COQ_TY = {"int": "Z", "bytes": "bytes", "bool": "bool", "boollist": "list bool",
 
 def coq_ty(t):
     if t.startswith("tuple:"):
-        return "(" + " * ".join(COQ_TY[x] for x in t[6:].split(",")) + ")"
+        return "(" + " * ".join(coq_ty(x) for x in t[6:].split(",")) + ")"
+    if t in COQ_TY:
+        return COQ_TY[t]
+    if t.startswith("list:"):
+        inner = coq_ty(t[5:])
+        return "list %s" % (inner if " " not in inner else "(%s)" % inner)
+    if t in CLASSES3:
+        return t
     return COQ_TY[t]
 
 
@@ -162,7 +171,17 @@ WAVE2["SevenZipFile._sanitize_archive_arcname"] = dict(
 CLASSES3 = {
     "PackInfo": {"packpos": "int", "numstreams": "int", "packsizes": "list:int", "packpositions": "list:int",
                  "crcs": "list:int", "digestdefined": "boollist", "enable_digests": "bool"},
+    # a coder is a dict with exactly these keys (built key by key in Folder._read)
+    "Coder": {"method": "bytes", "numinstreams": "int", "numoutstreams": "int", "properties": "optbytes"},
+    "Bond": {"incoder": "int", "outcoder": "int"},
+    "Folder": {"unpacksizes": "list:int", "coders": "list:Coder", "bindpairs": "list:Bond", "packed_indices": "list:int",
+               "solid": "bool", "digestdefined": "bool", "crc": "optint"},
+    "UnpackInfo": {"numfolders": "int", "folders": "list:Folder", "datastreamidx": "optint"},
 }
+DICT_RECORDS = ("Coder",)                  # records that are Python dicts with string keys
+CTOR_RECORDS = {"Bond": ["incoder", "outcoder"]}   # classes built as C(a, b): __init__(self, a, b) stores its arguments
+# attributes __init__ sets to None that no translated method touches (compressor objects, password, ...)
+IGNORED_ATTRS = {"Folder": ["decompressor", "compressor", "files", "password"]}
 # exception classes -> the err constructor of Prelude.v the model uses for them (anything else: EOther)
 EXC_ERR = {"Bad7zFile": "EBad7z", "UnsupportedCompressionMethodError": "EUnsupported"}
 # module-level objects of other modules whose attributes are constants: local name -> (module file, instance name)
@@ -186,6 +205,26 @@ WAVE2["PackInfo.retrieve"] = dict(file="archiveinfo.py", qual="PackInfo.retrieve
 WAVE2["PackInfo.write"] = dict(file="archiveinfo.py", qual="PackInfo.write", kind="objwriter", cls="PackInfo",
                                coqname="PackInfo_write", args={}, ret=None, out="ArchiveinfoRecords")
 
+# stage 2: Folder, UnpackInfo
+def _rec3(name, kind, cls, coqname, args=None, ret=None, **kw):
+    WAVE2[name] = dict(file="archiveinfo.py", qual=name, kind=kind, cls=cls, coqname=coqname, args=args or {}, ret=ret,
+                       out="ArchiveinfoRecords", **kw)
+
+
+_rec3("Coder", "record", "Coder", "Coder")
+_rec3("Bond.__init__", "ctor", "Bond", "Bond")
+_rec3("Folder.__init__", "init", "Folder", "Folder_init", ret="Folder")
+_rec3("Folder.is_simple", "method", "Folder", "Folder_is_simple", args={"coder": "Coder"}, ret="bool", selfargs={}, self_props={})
+_rec3("Folder._read", "objreader", "Folder", "Folder_read", ret="self")
+_rec3("Folder.retrieve", "retrieve", "Folder", "Folder_retrieve", ret="Folder")
+_rec3("Folder.write", "objwriter", "Folder", "Folder_write")
+_rec3("UnpackInfo.__init__", "init", "UnpackInfo", "UnpackInfo_init", ret="UnpackInfo")
+_rec3("UnpackInfo._retrieve_coders_info", "objreader", "UnpackInfo", "UnpackInfo_retrieve_coders_info", ret="self")
+# the branch for an external folder stream (file.tell / file.seek: "there is no live example") is not translated
+_rec3("UnpackInfo._read", "objreader", "UnpackInfo", "UnpackInfo_read", ret="self", partial=["file method tell", "file method seek"])
+_rec3("UnpackInfo.retrieve", "retrieve", "UnpackInfo", "UnpackInfo_retrieve", ret="UnpackInfo")
+_rec3("UnpackInfo.write", "objwriter", "UnpackInfo", "UnpackInfo_write", args={"with_crcs": "bool"})
+
 for _k, _v in WAVE2.items():
     if _v["out"] == "ArchiveinfoRecords":
         _v["join"] = True     # an `if` whose branches fall through is emitted once, yielding the variables it assigns
@@ -200,7 +239,7 @@ OUT_FILES = {
                "Variable C : Type.\nVariable enc : C -> bytes -> res (C * bytes).   (* self.cipher.encrypt(data) *)\n"
                "Variable dec : C -> bytes -> res (C * bytes).   (* self.cipher.decrypt(data) *)\n", "End AesBuf."),
     "ArchiveinfoRecords": ("py7zr/archiveinfo.py (header records)",
-                           "From P7 Require Import Prelude PyPrims PyStr.\nFrom P7gen Require Import ArchiveinfoPrims."),
+                           "From P7 Require Import Prelude PyPrims PyStr PyRe.\nFrom P7gen Require Import ArchiveinfoPrims."),
     "HelpersCrc": ("py7zr/helpers.py (calculate_crc32)", "From P7 Require Import Prelude PyPrims PyStr.",
                    "Section HelpersCrc.\nVariable zcrc32 : bytes -> Z -> Z.   (* zlib.crc32(data, value) *)\n", "End HelpersCrc."),
 }
@@ -218,7 +257,8 @@ STAT_FUNCTIONS = {"S_ISLNK": ("py_S_ISLNK", "bool"), "S_ISSOCK": ("py_S_ISSOCK",
 
 
 _MODCACHE = {}
-DEFAULT_VALUE = {"int": "0", "bool": "false", "list:int": "[]", "boollist": "[]", "bytes": "[]"}
+DEFAULT_VALUE = {"int": "0", "bool": "false", "list:int": "[]", "boollist": "[]", "bytes": "[]", "optint": "None",
+                 "optbytes": "None", "list:Coder": "[]", "list:Bond": "[]", "list:Folder": "[]"}
 
 
 def init_fields(module, cls):
@@ -237,6 +277,10 @@ def init_fields(module, cls):
         if not (isinstance(tg, ast.Attribute) and isinstance(tg.value, ast.Name) and tg.value.id == "self") or st.value is None \
                 or tg.attr in out:
             raise Refused("%s.__init__: line %d is not `self.field = value`" % (cls, st.lineno))
+        if tg.attr in IGNORED_ATTRS.get(cls, []):
+            if not (isinstance(st.value, ast.Constant) and st.value.value is None):
+                raise Refused("%s.__init__: the ignored attribute %s is not initialised to None" % (cls, tg.attr))
+            continue
         out[tg.attr] = st.value
     return out
 
@@ -260,8 +304,10 @@ def init_text(module, cls, spec):
             vals.append(DEFAULT_VALUE[t])
             continue
         v = ini[f]
-        if isinstance(v, ast.List) and not v.elts and t in ("list:int", "boollist"):
+        if isinstance(v, ast.List) and not v.elts and (t.startswith("list:") or t == "boollist"):
             vals.append("[]")
+        elif isinstance(v, ast.Constant) and v.value is None and t in ("optint", "optbytes"):
+            vals.append("None")
         elif isinstance(v, ast.Constant) and isinstance(v.value, bool) and t == "bool":
             vals.append("true" if v.value else "false")
         elif isinstance(v, ast.Constant) and isinstance(v.value, int) and not isinstance(v.value, bool) and t == "int":
@@ -278,9 +324,10 @@ def retrieve_text(module, cls, spec):
     ok = node is not None and [a.arg for a in node.args.args] == ["cls", "file"] \
         and len(node.decorator_list) == 1 and ast.unparse(node.decorator_list[0]) == "classmethod"
     body = [st for st in node.body if not (isinstance(st, ast.Expr) and isinstance(st.value, ast.Constant))] if ok else []
-    ok = ok and len(body) == 1 and isinstance(body[0], ast.Return) and ast.unparse(body[0].value) == "cls()._read(file)"
-    if not ok:
-        raise Refused("%s.retrieve is not `return cls()._read(file)`" % cls)
+    form1 = ok and len(body) == 1 and isinstance(body[0], ast.Return) and ast.unparse(body[0].value) == "cls()._read(file)"
+    form2 = ok and [ast.unparse(st) for st in body] == ["obj = cls()", "obj._read(file)", "return obj"]
+    if not (form1 or form2):
+        raise Refused("%s.retrieve is neither `return cls()._read(file)` nor `obj = cls(); obj._read(file); return obj`" % cls)
     return "Definition %s (inp : bytes) : res (%s * bytes) :=\n  %s_read %s_init inp." % (spec["coqname"], cls, cls, cls)
 
 
@@ -293,6 +340,8 @@ class FnTr:
         self.module = module    # ast of the module (for module-level constants); None for the first wave
         self.spec = spec or {}
         self.loops = []         # stack of enclosing for-loops: dict(ret=bool)
+        self.decl = {}          # declared types of lowered local variables (dict keys, fields of a loop object)
+        self.partial = []       # branches replaced by Err EUnsupported (allowed by spec["partial"])
         self.io = {"reader": "inp", "objreader": "inp", "writer": "out", "objwriter": "out"}.get(kind)
         self.fields = CLASSES3.get(self.spec.get("cls"), {}) if kind in ("objreader", "objwriter") else {}
 
@@ -398,8 +447,13 @@ class FnTr:
             return self.subscript(e)
         if isinstance(e, ast.Call):
             return self.call(e)
-        if isinstance(e, ast.ListComp) and self.module is not None:
-            return self.listcomp(e)
+        if isinstance(e, (ast.ListComp, ast.SetComp)) and self.module is not None:
+            p, v, t = self.listcomp(e)
+            if isinstance(e, ast.SetComp):
+                if t != "list:int":
+                    self.refuse(e, "set comprehension of " + t)
+                t = "set:int"
+            return p, v, t
         self.refuse(e, "expression")
 
     # ---------------- second wave helpers ----------------
@@ -542,6 +596,8 @@ class FnTr:
                 and e.attr in self.spec["state"] and "self" not in self.ty:
             return [], self.spec["state"][e.attr][0], self.spec["state"][e.attr][1]
         p, v, t = self.expr(e.value)
+        if t in CLASSES3 and t not in DICT_RECORDS and e.attr in CLASSES3[t]:
+            return p, "(%s_%s %s)" % (t, e.attr, v), CLASSES3[t][e.attr]
         if t == "buffer" and e.attr == "view":
             return p, v, "bytes"
         if t == "path":
@@ -582,11 +638,25 @@ class FnTr:
         p, v, t = self.expr(e)
         return p, self.truthy(e, v, t)
 
+    def coerce(self, node, v, t, want):
+        """a value of type t where `want` is declared"""
+        if t == want:
+            return v, t
+        if want in ("optint", "optbytes") and t == "nonetype":
+            return "None", want
+        if (want, t) in (("optint", "int"), ("optbytes", "bytes")):
+            return "(Some %s)" % v, want
+        if want == "boollist" and t == "list:bool":
+            return v, want
+        if t.startswith("list:") and want.startswith("list:") and v == "[]":
+            return v, want
+        self.refuse(node, "a value of type %s where %s is declared" % (t, want))
+
     def unwrap(self, p, v, t):
         """an Optional[int] used as an int: TypeError when it is None"""
-        if t == "optint":
+        if t in ("optint", "optbytes"):
             t1 = self.fresh()
-            return p + ["do %s <- py_unwrap %s;" % (t1, v)], t1, "int"
+            return p + ["do %s <- py_unwrap %s;" % (t1, v)], t1, t[3:]
         return p, v, t
 
     def has_io(self, node):
@@ -595,6 +665,8 @@ class FnTr:
             if isinstance(n, ast.Call):
                 if isinstance(n.func, ast.Attribute) and self.is_file(n.func.value):
                     return True
+                if isinstance(n.func, ast.Attribute) and any(self.is_file(a) for a in n.args):
+                    return True
                 if isinstance(n.func, ast.Name) and ((n.func.id in WHITELIST and WHITELIST[n.func.id][2] in ("reader", "writer"))
                                                      or (n.func.id in WAVE2 and WAVE2[n.func.id]["kind"] in ("reader", "writer"))):
                     return True
@@ -602,10 +674,35 @@ class FnTr:
 
     def listcomp(self, e):
         """[elt for x in range(..) / a list]  ->  for_m accumulating the list (and the input when elt reads the file)"""
-        if len(e.generators) != 1 or e.generators[0].ifs or e.generators[0].is_async:
+        if len(e.generators) != 1 or len(e.generators[0].ifs) > 1 or e.generators[0].is_async:
             self.refuse(e, "comprehension form")
         g = e.generators[0]
         it = g.iter
+        if isinstance(it, ast.Call) and isinstance(it.func, ast.Name) and it.func.id == "zip" and len(it.args) == 2 \
+                and "zip" not in self.local_names() and isinstance(g.target, ast.Tuple) and len(g.target.elts) == 2 \
+                and all(isinstance(x, ast.Name) and x.id not in self.ty for x in g.target.elts) and not self.has_io(e):
+            # [elt for a, b in zip(xs, ys) if cond]
+            p1, v1, t1 = self.expr(it.args[0])
+            p2, v2, t2 = self.expr(it.args[1])
+            el1 = "bool" if t1 == "boollist" else t1[5:] if t1.startswith("list:") else self.refuse(e, "zip over " + t1)
+            el2 = "bool" if t2 == "boollist" else t2[5:] if t2.startswith("list:") else self.refuse(e, "zip over " + t2)
+            a, b = g.target.elts[0].id, g.target.elts[1].id
+            saved = dict(self.ty)
+            self.ty[a], self.ty[b] = el1, el2
+            pc, c = self.test(g.ifs[0]) if g.ifs else ([], "true")
+            pe, ve, te = self.unwrap(*self.expr(e.elt))   # an Optional element is used as a value further on (TypeError if None)
+            self.ty = saved
+            if pc:
+                self.refuse(e, "effect in a comprehension filter")
+            acc = self.fresh() + "acc"
+            nm = self.fresh()
+            lines = p1 + p2 + ["do %ss <- for_m (combine %s %s) (fun '(%s, %s) %s =>" % (nm, v1, v2, a, b, acc)]
+            lines += ["    if %s then" % c] + ["      " + y for y in pe] + ["      Ok (%s ++ [%s], false)" % (acc, ve),
+                                                                           "    else Ok (%s, false)) [];" % acc]
+            lines += ["let %s := %ss in" % (nm, nm)]
+            return lines, nm, ("boollist" if te == "bool" else "list:" + te)
+        if g.ifs:
+            self.refuse(e, "comprehension filter")
         if isinstance(it, ast.Call) and isinstance(it.func, ast.Name) and it.func.id == "range" and len(it.args) == 1 \
                 and "range" not in self.local_names():
             p, hi, t = self.expr(it.args[0])
@@ -682,6 +779,11 @@ class FnTr:
                 and tl in ("int", "bool", "bytes", "list:int", "boollist"):
             # a record field / value of a non-optional type is never None
             return [], ("false" if isinstance(e.ops[0], ast.Is) else "true"), "bool"
+        if isinstance(e.ops[0], (ast.Is, ast.IsNot)) and tr == "nonetype" and tl in ("optint", "optbytes") and self.module is not None:
+            return pl, ("(negb (py_is_some %s))" if isinstance(e.ops[0], ast.Is) else "(py_is_some %s)") % l, "bool"
+        if isinstance(e.ops[0], (ast.In, ast.NotIn)) and tl == "int" and tr in ("set:int", "list:int") and self.module is not None:
+            v = "(py_in_ints %s %s)" % (l, r)
+            return pl + pr, (v if isinstance(e.ops[0], ast.In) else "(negb %s)" % v), "bool"
         if not isinstance(e.ops[0], (ast.Is, ast.IsNot)):
             pl, l, tl = self.unwrap(pl, l, tl)
             pr, r, tr = self.unwrap(pr, r, tr)
@@ -696,6 +798,9 @@ class FnTr:
                 if isinstance(op, ast.GtE):
                     return pre, "(%s <=? %s)" % (r, l), "bool"
                 return pre, m[type(op)] % (l, r), "bool"
+        if tl == "bool" and tr == "bool" and isinstance(op, (ast.Eq, ast.NotEq)) and self.module is not None:
+            v = "(Bool.eqb %s %s)" % (l, r)
+            return pre, (v if isinstance(op, ast.Eq) else "(negb %s)" % v), "bool"
         if tl == "bytes" and tr == "bytes" and isinstance(op, (ast.Eq, ast.NotEq)):
             v = "(bytes_eqb %s %s)" % (l, r)
             return pre, (v if isinstance(op, ast.Eq) else "(negb %s)" % v), "bool"
@@ -705,11 +810,18 @@ class FnTr:
         self.refuse(e, "compare %s on %s,%s" % (type(op).__name__, tl, tr))
 
     def subscript(self, e):
+        if self.module is not None and isinstance(e.slice, ast.Constant) and isinstance(e.slice.value, str):
+            pb, b, tb = self.expr(e.value)
+            if tb in DICT_RECORDS and e.slice.value in CLASSES3[tb]:
+                return pb, "(%s_%s %s)" % (tb, e.slice.value, b), CLASSES3[tb][e.slice.value]
+            self.refuse(e, "string key on " + tb)
         if self.kind == "method" and isinstance(e.value, ast.Attribute) and isinstance(e.value.value, ast.Name) \
                 and e.value.value.id == "self":
             return self.self_dict(e)
         # call(...)[0] on a tuple-returning call
         pb, b, tb = self.expr(e.value)
+        if self.module is not None:
+            pb, b, tb = self.unwrap(pb, b, tb) if tb == "optbytes" else (pb, b, tb)
         s = e.slice
         if tb.startswith("tuple:"):
             c = self.const_int(s)
@@ -731,7 +843,7 @@ class FnTr:
                         self.refuse(e, "slice bound type")
                     pre += p
                     bounds.append("(Some %s)" % v)
-            if not (tb == "bytes" or tb.startswith("list:") or tb == "boollist" or tb == "str"):
+            if not (tb == "bytes" or tb.startswith("list:") or tb == "boollist" or tb == "str") or tb[5:] in CLASSES3:
                 self.refuse(e, "slice of " + tb)
             return pre, "(py_slice %s %s %s)" % (b, bounds[0], bounds[1]), tb
         pi, i, ti = self.expr(s)
@@ -797,6 +909,36 @@ class FnTr:
         if not isinstance(f, ast.Name):
             self.refuse(e, "call target")
         fn = f.id
+        if self.module is not None and (fn.startswith("__mk_") and fn[5:] in CLASSES3 or (fn in CTOR_RECORDS and fn not in self.local_names())):
+            rec = fn[5:] if fn.startswith("__mk_") else fn
+            names = list(CLASSES3[rec]) if fn.startswith("__mk_") else CTOR_RECORDS[rec]
+            if e.keywords or len(args) != len(names) or (not fn.startswith("__mk_") and names != list(CLASSES3[rec])):
+                self.refuse(e, "constructor arguments of " + rec)
+            pre, vs = [], []
+            for a, k in zip(args, names):
+                p, v, t = self.expr(a)
+                v, t = self.coerce(e, v, t, CLASSES3[rec][k])
+                pre += p
+                vs.append(v)
+            return pre, "(mk%s %s)" % (rec, " ".join(vs)), rec
+        if fn == "next" and self.module is not None and len(args) == 1 and not e.keywords and isinstance(args[0], ast.Name) \
+                and self.ty.get(args[0].id) == "iter:int" and "next" not in self.local_names():
+            t1 = self.fresh()
+            it = args[0].id
+            return ["do %sn <- py_next %s;" % (t1, it), "let '(%s, %s) := %sn in" % (t1, it, t1)], t1, "int"
+        if fn == "iter" and self.module is not None and len(args) == 1 and not e.keywords and "iter" not in self.local_names():
+            p, v, t = self.expr(args[0])
+            if t != "list:int":
+                self.refuse(e, "iter() of " + t)
+            return p, v, "iter:int"
+        if fn == "sum" and self.module is not None and len(args) == 1 and not e.keywords and "sum" not in self.local_names():
+            p, v, t = self.expr(args[0])
+            if t != "list:int":
+                self.refuse(e, "sum() of " + t)
+            return p, "(py_sum %s)" % v, "int"
+        if fn == "bool" and self.module is not None and len(args) == 1 and not e.keywords and "bool" not in self.local_names():
+            p, v = self.test(args[0])
+            return p, v, "bool"
         if fn in ("hasattr", "getattr") and self.module is not None:
             return self.stat_attr(e)
         if fn == "isinstance" and self.module is not None and len(args) == 2 and not e.keywords \
@@ -841,6 +983,8 @@ class FnTr:
             return p, v, "int"
         if fn == "len" and len(args) == 1:
             p, v, t = self.expr(args[0])
+            if self.module is not None:
+                p, v, t = self.unwrap(p, v, t) if t == "optbytes" else (p, v, t)
             return p, "(py_len %s)" % v, "int"
         if fn in ("bytearray", "bytes") and len(args) == 1:
             p, v, t = self.expr(args[0])
@@ -871,10 +1015,20 @@ class FnTr:
                 if not cargs or not self.is_file(cargs[0]):
                     self.refuse(e, "call of %s without the file" % fn)
                 cargs = cargs[1:]
-            if e.keywords or len(cargs) != len(argtys):
+            if e.keywords and self.module is not None and all(k.arg in argtys for k in e.keywords):
+                names = list(argtys)
+                if len(cargs) + len(e.keywords) == len(names) and [k.arg for k in e.keywords] == names[len(cargs):]:
+                    cargs = cargs + [k.value for k in e.keywords]
+                else:
+                    self.refuse(e, "keyword arguments of " + fn)
+            elif e.keywords:
+                self.refuse(e, "call arity/keywords of " + fn)
+            if len(cargs) != len(argtys):
                 self.refuse(e, "call arity/keywords of " + fn)
             for a, (an, at) in zip(cargs, argtys.items()):
                 p, v, t = self.expr(a)
+                if self.module is not None and t == "optbytes" and at == "bytes":
+                    p, v, t = self.unwrap(p, v, t)
                 if t != at:
                     self.refuse(e, "argument type of %s.%s" % (fn, an))
                 pre += p
@@ -898,6 +1052,16 @@ class FnTr:
         if e.keywords:
             self.refuse(e, "keyword arguments")
         d = self.dotted(f)
+        if d == "struct.pack" and self.is_module("struct") and len(args) == 2 and isinstance(args[0], ast.Constant) \
+                and args[0].value in ("B", "<L", "<Q"):
+            p, v, t = self.expr(args[1])
+            if t != "int":
+                self.refuse(e, "pack arg")
+            t1 = self.fresh()
+            return p + ["do %s <- py_pack_%s %s;" % (t1, {"B": "B", "<L": "L", "<Q": "Q"}[args[0].value], v)], t1, "bytes"
+        r3 = self.record_call(e, d)
+        if r3 is not None:
+            return r3
         if d == "functools.reduce" and self.is_module("functools") and len(args) == 3 \
                 and self.dotted(args[0]) in ("operator.or_", "operator.and_") and self.is_module("operator"):
             p, v, t = self.expr(args[1])
@@ -905,6 +1069,20 @@ class FnTr:
             if t != "boollist" or ti != "bool":
                 self.refuse(e, "reduce types")
             return p + pi, "(%s %s %s)" % ("py_all" if self.dotted(args[0]) == "operator.and_" else "py_any", i, v), "bool"
+        if d == "functools.reduce" and self.is_module("functools") and len(args) == 3 and isinstance(args[0], ast.Name) \
+                and args[0].id in ("or_", "and_") and args[0].id not in self.local_names():
+            p, v, t = self.expr(args[1])
+            pi, i, ti = self.expr(args[2])
+            if t != "boollist" or ti != "bool":
+                self.refuse(e, "reduce types")
+            return p + pi, "(%s %s %s)" % ("py_all" if args[0].id == "and_" else "py_any", i, v), "bool"
+        if d == "functools.reduce" and self.is_module("functools") and len(args) == 3 and isinstance(args[0], ast.Lambda) \
+                and ast.unparse(args[0]) in ("lambda x, y: x or y", "lambda x, y: x and y"):
+            p, v, t = self.expr(args[1])
+            pi, i, ti = self.expr(args[2])
+            if t != "boollist" or ti != "bool":
+                self.refuse(e, "reduce types")
+            return p + pi, "(%s %s %s)" % ("py_all" if " and " in ast.unparse(args[0]) else "py_any", i, v), "bool"
         if d == "pathlib.Path" and self.is_module("pathlib"):
             # pathlib.Path(s) / pathlib.Path(*segments): the path object whose raw segments are the arguments
             if len(args) == 1 and isinstance(args[0], ast.Starred):
@@ -932,6 +1110,8 @@ class FnTr:
                 pre += p
                 vs.append(v)
             return pre, "(%s %s)" % (fn, " ".join(vs)), rt
+        if isinstance(f.value, ast.Name) and f.value.id == "self" and self.spec.get("out") == "ArchiveinfoRecords":
+            return self.selfcall3(e)
         if isinstance(f.value, ast.Name) and f.value.id == "self" and self.kind == "method":
             return self.selfcall(e)
         if isinstance(f.value, ast.Attribute) and isinstance(f.value.value, ast.Name) and f.value.value.id == "self" \
@@ -1077,6 +1257,66 @@ class FnTr:
         t1 = self.fresh()
         return pk + ["do %s <- py_dict_str_get [%s] %s;" % (t1, "; ".join(items), kv)], t1, "int"
 
+    def method_spec(self, cls, name):
+        sp = WAVE2.get("%s.%s" % (cls, name))
+        return sp if sp is not None and sp["file"] == self.spec.get("file") else None
+
+    def record_call(self, e, d):
+        """calls on / of the record classes: C.retrieve(file), obj.write(file), self.m(..), it.count(True), next(it)"""
+        f, args = e.func, e.args
+        # C.retrieve(file, a..)
+        if isinstance(f.value, ast.Name) and f.value.id in CLASSES3 and f.value.id not in self.ty and f.attr == "retrieve":
+            sp = self.method_spec(f.value.id, "retrieve")
+            if sp is None or self.io != "inp" or not args or not self.is_file(args[0]) or e.keywords or len(args) - 1 != len(sp["args"]):
+                self.refuse(e, "call of %s.retrieve" % f.value.id)
+            pre, vs = [], []
+            for a, (an, at) in zip(args[1:], sp["args"].items()):
+                p, v, t = self.expr(a)
+                if t != at:
+                    self.refuse(e, "argument type of %s.retrieve.%s: %s" % (f.value.id, an, t))
+                pre += p
+                vs.append(v)
+            t1 = self.fresh()
+            return pre + ["do %sr <- %s inp %s;" % (t1, sp["coqname"], " ".join(vs)), "let '(%s, inp) := %sr in" % (t1, t1)], t1, sp["cls"]
+        if f.attr == "count" and len(args) == 1 and isinstance(args[0], ast.Constant) and args[0].value is True and not e.keywords:
+            p, v, t = self.expr(f.value)
+            if t == "boollist":
+                return p, "(py_count_true %s)" % v, "int"
+        if isinstance(f.value, ast.Name) and self.ty.get(f.value.id) in CLASSES3 and f.attr == "write" and self.io == "out":
+            cls = self.ty[f.value.id]
+            sp = self.method_spec(cls, "write")
+            if sp is None or sp.get("mutates") or not args or not self.is_file(args[0]) or e.keywords or len(args) != 1 + len(sp["args"]):
+                self.refuse(e, "call of %s.write" % cls)
+            t1 = self.fresh()
+            return ["do %s <- %s %s;" % (t1, sp["coqname"], f.value.id), "let out := out ++ %s in" % t1], "tt", "none"
+        return None
+
+    def selfcall3(self, e):
+        """self.m(..) in a record method: a pure method (is_simple), or a reader method that continues on the same file"""
+        f, args = e.func, e.args
+        sp = self.method_spec(self.spec["cls"], f.attr)
+        if sp is None:
+            self.refuse(e, "method self.%s" % f.attr)
+        if sp["kind"] == "method":
+            if e.keywords or len(args) != len(sp["args"]):
+                self.refuse(e, "arity of self.%s" % f.attr)
+            pre, vs = [], []
+            for a, (an, at) in zip(args, sp["args"].items()):
+                p, v, t = self.expr(a)
+                if t != at:
+                    self.refuse(e, "argument type of self.%s: %s" % (f.attr, t))
+                pre += p
+                vs.append(v)
+            t1 = self.fresh()
+            return pre + ["do %s <- %s %s;" % (t1, sp["coqname"], " ".join(vs))], t1, sp["ret"]
+        if sp["kind"] == "objreader" and self.kind == "objreader" and len(args) == 1 and self.is_file(args[0]) and not e.keywords:
+            t1 = self.fresh()
+            cls = self.spec["cls"]
+            lines = ["do %sr <- %s %s inp;" % (t1, sp["coqname"], self.self_record()), "let '(%s, inp) := %sr in" % (t1, t1)]
+            lines += ["let self_%s := %s_%s %s in" % (fld, cls, fld, t1) for fld in self.fields]
+            return lines, "tt", "none"
+        self.refuse(e, "method self.%s" % f.attr)
+
     def selfcall(self, e):
         """self.m(...) inside a method: the property table of the spec, or another translated method of the class"""
         f, args = e.func, e.args
@@ -1139,6 +1379,13 @@ class FnTr:
             if isinstance(st, ast.Attribute) and isinstance(st.ctx, ast.Store) and isinstance(st.value, ast.Name) \
                     and st.value.id == "self" and self.fields:
                 add("self_" + st.attr)
+            if isinstance(st, ast.Call) and isinstance(st.func, ast.Name) and st.func.id == "next" and len(st.args) == 1 \
+                    and isinstance(st.args[0], ast.Name) and self.module is not None:
+                add(st.args[0].id)
+            if isinstance(st, ast.Call) and self.module is not None and isinstance(st.func, ast.Attribute) \
+                    and st.func.attr in ("retrieve", "write", "_read", "read") and self.io and self.spec.get("out") == "ArchiveinfoRecords" \
+                    and any(self.is_file(a) for a in st.args):
+                add(self.io)
             if isinstance(st, ast.Call):
                 if isinstance(st.func, ast.Attribute) and self.is_file(st.func.value):
                     add(self.io or "out")
@@ -1153,12 +1400,14 @@ class FnTr:
         if self.loops:
             self.loops[-1]["ret"] = True
             return ["RETURN " + val]
+        if self.kind == "objreader" and self.retty == "self" and val == "tt":
+            return ["Ok (%s, inp)" % self.self_record()]
         if self.kind in ("reader", "objreader"):
             return ["Ok (%s, inp)" % val]
         if self.kind == "writer":
             return ["Ok out"]
         if self.kind == "objwriter":
-            return ["Ok (%s, out)" % self.self_record()]
+            return ["Ok (%s, out)" % self.self_record()] if self.spec.get("mutates") else ["Ok out"]
         if self.kind == "objmethod":
             return ["Ok (%s, (%s))" % (val, ", ".join(v for v, _ in self.spec["state"].values()))]
         return ["Ok %s" % val]
@@ -1174,8 +1423,6 @@ class FnTr:
             return cont()  # docstring
         if isinstance(st, ast.Pass):
             return cont()
-        if self.fields and self.module is not None:
-            st = self.rewrite_self(st)
         if self.module is not None:
             lifted = self.lift_ifexp(st)
             if lifted is not None:
@@ -1220,6 +1467,16 @@ class FnTr:
             fake = ast.Assign(targets=[st.target], value=st.value)
             ast.copy_location(fake, st)
             return self.block([fake] + rest, k)
+        if isinstance(st, ast.AnnAssign) and self.module is not None and isinstance(st.annotation, ast.Name) \
+                and st.annotation.id.startswith("list__") and st.annotation.id[6:] in CLASSES3:
+            self.ty[st.target.id] = "list:" + st.annotation.id[6:]
+            return ["let %s : list %s := [] in" % (st.target.id, st.annotation.id[6:])] + cont()
+        if isinstance(st, ast.AnnAssign) and self.module is not None and isinstance(st.target, ast.Name) and st.value is not None \
+                and not isinstance(st.value, ast.List):
+            # `x: T = v` on a local variable: the annotation is not used (the type is the type of v)
+            fake = ast.Assign(targets=[st.target], value=st.value)
+            ast.copy_location(fake, st)
+            return self.block([fake] + rest, k)
         if isinstance(st, ast.AnnAssign) and self.module is not None:
             # `x: list[str] = []`
             ann = ast.unparse(st.annotation).replace("List", "list")
@@ -1233,14 +1490,18 @@ class FnTr:
                 self.refuse(st, "multi-target assign")
             tg = st.targets[0]
             p, v, t = self.expr(st.value)
-            if isinstance(tg, ast.Name) and tg.id.startswith("self_") and tg.id[5:] in self.fields:
-                ft = self.fields[tg.id[5:]]
+            if isinstance(tg, ast.Name) and (tg.id in self.decl or (tg.id.startswith("self_") and tg.id[5:] in self.fields)):
+                ft = self.decl[tg.id] if tg.id in self.decl else self.fields[tg.id[5:]]
+                v, t = self.coerce(st, v, t, ft)
+                self.ty[tg.id] = ft
                 if isinstance(st.value, ast.List) and not st.value.elts:
                     t = ft
                 if t == "list:bool":
                     t = "boollist"
                 if t != ft:
                     self.refuse(st, "assignment of %s to the field %s : %s" % (t, tg.id[5:], ft))
+                if v == "[]":
+                    return p + ["let %s : %s := [] in" % (tg.id, coq_ty(ft))] + cont()
                 return p + ["let %s := %s in" % (tg.id, v)] + cont()
             if isinstance(tg, ast.Name):
                 if self.module is not None and isinstance(st.value, ast.List) and not st.value.elts:
@@ -1314,7 +1575,8 @@ class FnTr:
             self.refuse(st, "expression statement")
         if isinstance(st, ast.If) and self.module is not None and isinstance(st.test, ast.Compare) \
                 and len(st.test.ops) == 1 and isinstance(st.test.ops[0], (ast.Is, ast.IsNot)) \
-                and isinstance(st.test.comparators[0], ast.Constant) and st.test.comparators[0].value is None:
+                and isinstance(st.test.comparators[0], ast.Constant) and st.test.comparators[0].value is None \
+                and not (self.spec.get("out") == "ArchiveinfoRecords"):
             # `if x is None:` / `if x is not None:` on an Optional[int] variable: a match that rebinds x as the int
             x = st.test.left
             if not (isinstance(x, ast.Name) and self.ty.get(x.id) in ("optint", "optmatch2")):
@@ -1337,11 +1599,15 @@ class FnTr:
             saved = dict(self.ty)
             names = self.assigned([st])
             tmp0 = self.tmp
-            self.block(st.body, lambda: [])
+            ra = self.try_block(st.body, lambda: [])
             ty_a = dict(self.ty)
             self.ty = dict(saved)
-            self.block(st.orelse, lambda: [])
+            rb = self.try_block(st.orelse, lambda: [])
             ty_b = dict(self.ty)
+            if ra == ["Err EUnsupported"]:
+                ty_a = dict(ty_b)     # the untranslated branch raises: the types after the `if` are the other branch's
+            if rb == ["Err EUnsupported"]:
+                ty_b = dict(ty_a)
             self.ty = dict(saved)
             self.tmp = tmp0      # the two passes above only computed the types
             joined = [v for v in names if v in (self.io,) or v in saved or (v in ty_a and v in ty_b)]
@@ -1349,9 +1615,9 @@ class FnTr:
                 if v != self.io and v not in saved and ty_a[v] != ty_b[v]:
                     self.refuse(st, "variable %s gets different types in the branches" % v)
             tup = "tt" if not joined else joined[0] if len(joined) == 1 else "(%s)" % ", ".join(joined)
-            a = self.block(st.body, lambda: ["Ok %s" % tup])
+            a = self.try_block(st.body, lambda: ["Ok %s" % tup])
             self.ty = dict(saved)
-            b = self.block(st.orelse, lambda: ["Ok %s" % tup])
+            b = self.try_block(st.orelse, lambda: ["Ok %s" % tup])
             self.ty = dict(saved)
             for v in joined:
                 if v != self.io and v not in saved:
@@ -1394,10 +1660,28 @@ class FnTr:
                         and not a.keywords and a.func.id not in self.local_names():
                     return isinstance(a.args[0], (ast.Name, ast.Constant))
                 return False
-            if st.cause is not None or not (isinstance(x, ast.Call) and isinstance(x.func, ast.Name)
-                                            and all(harmless(a) for a in x.args) and not x.keywords):
+            if st.cause is not None or not (isinstance(x, ast.Call) and isinstance(x.func, ast.Name) and not x.keywords):
                 self.refuse(st, "raise form")
-            return ["Err %s" % EXC_ERR.get(x.func.id, "EOther")]
+            pre = []
+            for a in x.args:
+                if harmless(a):
+                    continue
+                if isinstance(a, ast.JoinedStr):
+                    # f"...{e:spec}...": the interpolated expressions are evaluated (they may raise), their values dropped
+                    for part in a.values:
+                        if isinstance(part, ast.Constant):
+                            continue
+                        v = part.value
+                        if harmless(v) or (isinstance(v, ast.Call) and isinstance(v.func, ast.Attribute) and self.is_file(v.func.value)
+                                           and v.func.attr == "tell" and not v.args):
+                            continue
+                        p, _, t = self.expr(v)
+                        if t not in ("int", "bytes", "str"):
+                            self.refuse(st, "formatted value of type " + t)
+                        pre += p
+                    continue
+                self.refuse(st, "raise form")
+            return pre + ["Err %s" % EXC_ERR.get(x.func.id, "EOther")]
         if isinstance(st, ast.For):
             return self.forloop(st, cont)
         if isinstance(st, ast.While) and self.module is not None:
@@ -1407,6 +1691,171 @@ class FnTr:
         if isinstance(st, ast.Continue):
             return ["CONTINUE"]
         self.refuse(st, "statement")
+
+    # ---------------- third wave: lowering of a method body to plain local variables ----------------
+    def lower(self, body):
+        """self.x -> self_x ; dict locals with constant keys -> one local per key ; loops that mutate the objects of a
+        list attribute -> loops that rebuild the list.  Works on a copy of the body; anything it does not recognise is
+        left alone (and then refused by the translation proper)."""
+        import copy
+        body = [self.rewrite_self(st) if self.fields else copy.deepcopy(st) for st in body]
+        body = self.lower_dicts(body)
+        body = self.lower_mutating_loops(body)
+        for st in body:
+            ast.fix_missing_locations(st)
+        return body
+
+    def lower_dicts(self, body):
+        mod = ast.Module(body=body, type_ignores=[])
+        cands = {}
+        for st in ast.walk(mod):
+            tg = st.targets[0] if isinstance(st, ast.Assign) and len(st.targets) == 1 else \
+                st.target if isinstance(st, ast.AnnAssign) else None
+            if isinstance(tg, ast.Name) and isinstance(getattr(st, "value", None), ast.Dict) and st.value.keys \
+                    and all(isinstance(k, ast.Constant) and isinstance(k.value, str) for k in st.value.keys):
+                cands.setdefault(tg.id, set()).update(k.value for k in st.value.keys)
+        if not cands:
+            return body
+        parents = {}
+        for p in ast.walk(mod):
+            for ch in ast.iter_child_nodes(p):
+                parents[ch] = p
+        for n in ast.walk(mod):
+            if isinstance(n, ast.Name) and n.id in cands:
+                p = parents.get(n)
+                if isinstance(p, ast.Subscript) and p.value is n and isinstance(p.slice, ast.Constant) and isinstance(p.slice.value, str):
+                    cands[n.id].add(p.slice.value)
+        recs = {}
+        for v, keys in cands.items():
+            rs = [r for r in DICT_RECORDS if keys <= set(CLASSES3[r])]
+            if len(rs) != 1:
+                self.refuse(self.node, "dict %s with keys %s is not one of the known records" % (v, sorted(keys)))
+            recs[v] = rs[0]
+            for k, t in CLASSES3[rs[0]].items():
+                self.decl["%s__%s" % (v, k)] = t
+        tr = self
+
+        class T(ast.NodeTransformer):
+            def dict_assign(t, st, tg):
+                out = []
+                for k, v in zip(st.value.keys, st.value.values):
+                    out.append(ast.copy_location(ast.Assign(targets=[ast.Name(id="%s__%s" % (tg.id, k.value), ctx=ast.Store())],
+                                                            value=t.visit(v)), st))
+                return out
+
+            def visit_Assign(t, st):
+                if len(st.targets) == 1 and isinstance(st.targets[0], ast.Name) and st.targets[0].id in recs \
+                        and isinstance(st.value, ast.Dict):
+                    return t.dict_assign(st, st.targets[0])
+                return t.generic_visit(st)
+
+            def visit_AnnAssign(t, st):
+                if isinstance(st.target, ast.Name) and st.target.id in recs and isinstance(st.value, ast.Dict):
+                    return t.dict_assign(st, st.target)
+                return t.generic_visit(st)
+
+            def visit_Subscript(t, n):
+                if isinstance(n.value, ast.Name) and n.value.id in recs and isinstance(n.slice, ast.Constant) \
+                        and isinstance(n.slice.value, str):
+                    if n.slice.value not in CLASSES3[recs[n.value.id]]:
+                        tr.refuse(n, "key %r of the dict %s" % (n.slice.value, n.value.id))
+                    return ast.copy_location(ast.Name(id="%s__%s" % (n.value.id, n.slice.value), ctx=n.ctx), n)
+                return t.generic_visit(n)
+
+            def visit_Name(t, n):
+                if n.id in recs:
+                    if not isinstance(n.ctx, ast.Load):
+                        tr.refuse(n, "dict variable %s is rebound" % n.id)
+                    r = recs[n.id]
+                    return ast.copy_location(ast.Call(func=ast.Name(id="__mk_" + r, ctx=ast.Load()),
+                                                      args=[ast.Name(id="%s__%s" % (n.id, k), ctx=ast.Load()) for k in CLASSES3[r]],
+                                                      keywords=[]), n)
+                return n
+        return T().visit(mod).body
+
+    def lower_mutating_loops(self, body):
+        """for x in self_L / enumerate(self_L) whose body assigns attributes of x (a record of CLASSES3):
+             accN: list[R] = []
+             for x in self_L:  x__f = x.f (all fields) ; body with x.f -> x__f ; accN.append(__mk_R(x__f ...))
+             self_L = accN"""
+        tr = self
+        counter = [0]
+
+        def stores_attr(node, var):
+            for n in ast.walk(node):
+                if isinstance(n, ast.Attribute) and isinstance(n.value, ast.Name) and n.value.id == var:
+                    if isinstance(n.ctx, ast.Store):
+                        return True
+                    # x.attr.append(..) / pop
+            for n in ast.walk(node):
+                if isinstance(n, ast.Call) and isinstance(n.func, ast.Attribute) and n.func.attr in ("append", "pop") \
+                        and isinstance(n.func.value, ast.Attribute) and isinstance(n.func.value.value, ast.Name) \
+                        and n.func.value.value.id == var:
+                    return True
+            return False
+
+        class T(ast.NodeTransformer):
+            def visit_For(t, st):
+                st = t.generic_visit(st)
+                it, tg = st.iter, st.target
+                enum = isinstance(it, ast.Call) and isinstance(it.func, ast.Name) and it.func.id == "enumerate" and len(it.args) == 1
+                src = it.args[0] if enum else it
+                var = tg.elts[1] if enum and isinstance(tg, ast.Tuple) and len(tg.elts) == 2 else tg
+                if not (isinstance(src, ast.Name) and isinstance(var, ast.Name) and stores_attr(ast.Module(body=st.body, type_ignores=[]), var.id)):
+                    return st
+                lt = tr.fields.get(src.id[5:]) if src.id.startswith("self_") else None
+                if not (lt and lt.startswith("list:") and lt[5:] in CLASSES3):
+                    tr.refuse(st, "loop that assigns attributes of its variable over something that is not a list attribute of self")
+                if st.orelse or any(isinstance(n, (ast.Break, ast.Return)) for n in ast.walk(st)):
+                    tr.refuse(st, "break / return in a loop that updates the objects of a list")
+                rec = lt[5:]
+                counter[0] += 1
+                acc = "acc%d" % counter[0]
+                x = var.id
+
+                class A(ast.NodeTransformer):
+                    def visit_Attribute(a, n):
+                        if isinstance(n.value, ast.Name) and n.value.id == x and n.attr in CLASSES3[rec]:
+                            return ast.copy_location(ast.Name(id="%s__%s" % (x, n.attr), ctx=n.ctx), n)
+                        return a.generic_visit(n)
+                new_body = [ast.Assign(targets=[ast.Name(id="%s__%s" % (x, f), ctx=ast.Store())],
+                                       value=ast.Attribute(value=ast.Name(id=x, ctx=ast.Load()), attr=f, ctx=ast.Load()))
+                            for f in CLASSES3[rec]]
+                for f, ft in CLASSES3[rec].items():
+                    tr.decl["%s__%s" % (x, f)] = ft
+                new_body += [A().visit(b) for b in st.body]
+                for n in ast.walk(ast.Module(body=new_body[len(CLASSES3[rec]):], type_ignores=[])):
+                    if isinstance(n, ast.Name) and n.id == x:
+                        tr.refuse(st, "the loop variable %s is used as a whole object in a loop that updates it" % x)
+                new_body.append(ast.Expr(value=ast.Call(
+                    func=ast.Attribute(value=ast.Name(id=acc, ctx=ast.Load()), attr="append", ctx=ast.Load()),
+                    args=[ast.Call(func=ast.Name(id="__mk_" + rec, ctx=ast.Load()),
+                                   args=[ast.Name(id="%s__%s" % (x, f), ctx=ast.Load()) for f in CLASSES3[rec]], keywords=[])],
+                    keywords=[])))
+                pre = ast.AnnAssign(target=ast.Name(id=acc, ctx=ast.Store()), annotation=ast.Name(id="list__" + rec, ctx=ast.Load()),
+                                    value=ast.List(elts=[], ctx=ast.Load()), simple=1)
+                loop = ast.For(target=st.target, iter=st.iter, body=new_body, orelse=[])
+                post = ast.Assign(targets=[ast.Name(id=src.id, ctx=ast.Store())], value=ast.Name(id=acc, ctx=ast.Load()))
+                for n in (pre, loop, post):
+                    ast.copy_location(n, st)
+                return [pre, loop, post]
+        return T().visit(ast.Module(body=body, type_ignores=[])).body
+
+    def try_block(self, stmts, k):
+        """block(), except that a branch the translator cannot express for a reason listed in spec["partial"] becomes
+        Err EUnsupported (recorded in the report: the generated function is then partial)"""
+        ty0, tmp0 = dict(self.ty), self.tmp
+        try:
+            return self.block(stmts, k)
+        except Refused as r:
+            for pat in self.spec.get("partial", []):
+                if pat in str(r):
+                    self.ty, self.tmp = ty0, tmp0
+                    note = "line %d: %s" % (stmts[0].lineno if stmts else 0, pat)
+                    if note not in self.partial:
+                        self.partial.append(note)
+                    return ["Err EUnsupported"]
+            raise
 
     def file_write(self, c):
         p, v, t = self.expr(c.args[0]) if len(c.args) == 1 and not c.keywords and c.func.attr == "write" else self.refuse(c, "file method")
@@ -1429,8 +1878,7 @@ class FnTr:
     def lift_ifexp(self, st):
         """`x.append(a if c else b)` / `v = a if c else b` with an effect-free test -> an if statement"""
         def split(mk, ife):
-            if self.has_io(ife.test) or any(isinstance(n, ast.Call) for n in ast.walk(ife.test)):
-                self.refuse(st, "conditional expression with a test that is not a plain expression")
+            # the conditional expression is the whole value: its test is the first thing the statement evaluates
             a, b = mk(ife.body), mk(ife.orelse)
             new = ast.If(test=ife.test, body=[a], orelse=[b])
             for n in (new, a, b):
@@ -1494,9 +1942,12 @@ class FnTr:
             elty = "int"
         elif isinstance(it, ast.Call) and isinstance(it.func, ast.Name) and it.func.id == "enumerate" and len(it.args) == 1:
             p, v, t = self.expr(it.args[0])
-            if t != "boollist":
+            if t == "boollist":
+                pre, xs, elty = p, "(py_enumerate %s)" % v, "tuple:int,bool"
+            elif t.startswith("list:") and self.module is not None:
+                pre, xs, elty = p, "(py_enumerate %s)" % v, "tuple:int," + t[5:]
+            else:
                 self.refuse(st, "enumerate arg type")
-            pre, xs, elty = p, "(py_enumerate %s)" % v, "tuple:int,bool"
         else:
             p, v, t = self.expr(it)
             if t.startswith("list:"):
@@ -1631,8 +2082,8 @@ class FnTr:
                 head = "Definition %s (self : %s) (inp : bytes) %s : res (%s * bytes) :=\n%s" % (
                     self.spec["coqname"], cls, sig, rt, unpack)
             else:
-                head = "Definition %s (self : %s) %s : res (%s * bytes) :=\n%s\n  let out : bytes := [] in" % (
-                    self.spec["coqname"], cls, sig, cls, unpack)
+                head = "Definition %s (self : %s) %s : res %s :=\n%s\n  let out : bytes := [] in" % (
+                    self.spec["coqname"], cls, sig, "(%s * bytes)" % cls if self.spec.get("mutates") else "bytes", unpack)
         elif self.kind == "reader":
             head = "Definition %s (inp : bytes) %s : res (%s * bytes) :=" % (self.name, sig, coq_ty(self.retty))
         elif self.kind == "writer":
@@ -1643,7 +2094,9 @@ class FnTr:
                 rt = "(%s * (%s))" % (rt, " * ".join(coq_ty(t) for _, t in self.spec["state"].values()))
             head = "Definition %s %s : res %s :=" % (self.spec.get("coqname", self.name.split(".")[-1]), sig,
                                                      "(%s)" % rt if " " in rt and not rt.startswith("(") else rt)
-        body = self.block(node.body, lambda: self.ret("tt"))
+        stmts = self.lower(node.body) if self.module is not None and self.kind in ("objreader", "objwriter", "method") \
+            and self.spec.get("out") == "ArchiveinfoRecords" else node.body
+        body = self.block(stmts, lambda: self.ret("tt"))
         for x in body:
             if x.strip() in ("BREAK", "CONTINUE") or x.strip().startswith("RETURN "):
                 self.refuse(node, "break/continue outside loop")
@@ -1702,7 +2155,10 @@ def placeholder(name, spec):
         first = "(self : %s) " % cls if spec["kind"] == "objreader" else ""
         return "Definition %s %s(inp : bytes) %s : res (%s * bytes) :=\n  Err EOther." % (spec["coqname"], first, sig, ret)
     if spec["kind"] == "objwriter":
-        return "Definition %s (self : %s) %s : res (%s * bytes) :=\n  Err EOther." % (spec["coqname"], spec["cls"], sig, spec["cls"])
+        return "Definition %s (self : %s) %s : res %s :=\n  Err EOther." % (
+            spec["coqname"], spec["cls"], sig, "(%s * bytes)" % spec["cls"] if spec.get("mutates") else "bytes")
+    if spec["kind"] in ("record", "ctor"):
+        return record_text(spec["cls"])
     if spec["kind"] == "init":
         cls = spec["cls"]
         return "%s\nDefinition %s : %s := mk%s %s." % (record_text(cls), spec["coqname"], cls, cls,
@@ -1749,6 +2205,20 @@ def main():
     text = HEADER % "py7zr/archiveinfo.py" + "\n" + "\n".join(chunks)
     write_if_changed(os.path.join(outdir, "ArchiveinfoPrims.v"), text)
 
+    # writer methods: does the method change the object (then it returns the object as well)
+    for name, spec in WAVE2.items():
+        if spec["kind"] == "objwriter":
+            try:
+                node = find_function(load(spec["file"]), spec["qual"])
+            except (OSError, SyntaxError):
+                node = None
+            spec["mutates"] = node is None or any(
+                (isinstance(n, ast.Attribute) and isinstance(n.value, ast.Name) and n.value.id == "self"
+                 and isinstance(n.ctx, (ast.Store, ast.Del)))
+                or (isinstance(n, ast.Call) and isinstance(n.func, ast.Attribute) and n.func.attr in ("append", "pop", "extend", "clear", "insert", "remove", "sort")
+                    and isinstance(n.func.value, ast.Attribute) and isinstance(n.func.value.value, ast.Name) and n.func.value.value.id == "self")
+                for n in ast.walk(node))
+
     # ---- second wave: one file per source area
     for out, desc in OUT_FILES.items():
         srcdesc, requires = desc[0], desc[1]
@@ -1759,25 +2229,37 @@ def main():
             fname, qual = spec["file"], spec["qual"]
             try:
                 tree = load(fname)
-                node = find_function(tree, qual)
+                node = find_function(tree, qual) if spec["kind"] != "record" else tree
                 if node is None:
                     raise Refused("%s: not found in %s" % (qual, fname))
-                seg = ast.get_source_segment(srcs[fname], node)
+                seg = ast.get_source_segment(srcs[fname], node) if spec["kind"] != "record" else "record " + name
                 spec = dict(spec, _repo=repo)
-                if spec["kind"] == "init":
+                if spec["kind"] == "record":
+                    text = record_text(spec["cls"])
+                    node = None
+                elif spec["kind"] == "ctor":
+                    args = [a.arg for a in node.args.args]
+                    want = ["self.%s = %s" % (a, a) for a in CTOR_RECORDS[spec["cls"]]]
+                    if args != ["self"] + CTOR_RECORDS[spec["cls"]] or [ast.unparse(st) for st in node.body] != want:
+                        raise Refused("%s.__init__ does not just store its arguments" % spec["cls"])
+                    text = record_text(spec["cls"])
+                elif spec["kind"] == "init":
                     text = init_text(tree, spec["cls"], spec)
                 elif spec["kind"] == "retrieve":
                     text = retrieve_text(tree, spec["cls"], spec)
                 else:
                     tr = FnTr(name, node, spec["kind"], spec["args"], spec["ret"], module=tree, spec=spec)
                     text = tr.translate()
-                chunks.append("(* %s:%d %s *)\n%s\n" % (fname, node.lineno, qual, text))
+                lineno = getattr(node, "lineno", 0)
+                chunks.append("(* %s:%d %s *)\n%s\n" % (fname, lineno, qual, text))
                 report["translated"][name] = {
-                    "source": "%s:%d" % (fname, node.lineno),
+                    "source": "%s:%d" % (fname, lineno),
                     "source_sha256": hashlib.sha256(seg.encode()).hexdigest(),
                     "gallina_sha256": hashlib.sha256(text.encode()).hexdigest(),
                     "file": out + ".v",
                 }
+                if spec["kind"] not in ("record", "ctor", "init", "retrieve") and tr.partial:
+                    report["translated"][name]["partial"] = tr.partial
             except (Refused, OSError, SyntaxError) as r:
                 report["refused"][name] = str(r)
                 chunks.append("(* REFUSED %s: %s *)\n%s\n" % (name, str(r).replace("*)", "* )"), placeholder(name, spec)))
